@@ -25,6 +25,7 @@ package parse
 //@   requires t != nil && tokOK(deref(t)) && len(t.q) > 0 && t.q[0] == '"'
 //@   modifies t.errt
 //@   ensures tokOK(n) && n.errt == t.errt && t.errt.qOrig == old(t.errt.qOrig) && 0 <= k.Off <= len(t.errt.qOrig)
+//@   ensures len(n.q) < len(t.q)
 //@   ensures qEnd(t.q, 1) >= len(t.q) ==> k.Kind == 0 && t.errt.err != nil
 //@   ensures qEnd(t.q, 1) < len(t.q) && strconv.Unquote_1(t.q[:qEnd(t.q, 1)+1]) == nil ==>
 //@             k.Kind == 'q' && k.Tok == strconv.Unquote_0(t.q[:qEnd(t.q, 1)+1]) && n.q == t.q[qEnd(t.q, 1)+1:] && t.errt.err == old(t.errt.err)
